@@ -57,6 +57,8 @@ def world():
         """an object that only SAYS it is a str (as unittest.mock.Mock(spec=str) does)"""
         __class__ = property(lambda self: str)
     import weakref
+    import collections
+    NT = collections.namedtuple("NT", "a b")
     _keep = A()
     toks = {
         "none": None, "i_m1": -1, "i0": 0, "i1": 1, "i2": 2, "i5": 5, "i10": 10, "ihuge": 10 ** 400,
@@ -69,8 +71,9 @@ def world():
         "by_a": b"a", "t_": (), "t_1a": (1, "a"), "t_2h5": (2.5, "5"), "t_1a1": (1, "a", 1), "t_12": (1, 2), "t_s10s9": ("10", "9"), "t_s9s10": ("9", "10"), "l_1a": [1, "a"],
         "fn": fn, "cA": A, "cB": B, "cC": C, "oA": A(), "oB": B(), "oC": C(), "mod": math, "obj": object(),
         "pxA": weakref.proxy(_keep), "lieS": LieStr(), "oSelf": None, "t_selfa": None,     # (made per holder class)
+        "nt_1a": NT(1, "a"), "nt_5a": NT("5", "a"),
     }
-    _state.update(_keep=_keep, LieStr=LieStr, np=np, A=A, B=B, C=C, toks=toks, IntSub=IntSub, FloatSub=FloatSub, StrSub=StrSub, IdxObj=IdxObj,
+    _state.update(NT=NT, _keep=_keep, LieStr=LieStr, np=np, A=A, B=B, C=C, toks=toks, IntSub=IntSub, FloatSub=FloatSub, StrSub=StrSub, IdxObj=IdxObj,
                   IdxRaise=IdxRaise, FltObj=FltObj, FltRaise=FltRaise, CplxObj=CplxObj, classes={})
     return _state
 
@@ -115,6 +118,8 @@ def proj(x, loose_str=False, strlen=False):
         r = ("bytes", NoNum, "a")
     elif t is tuple:
         r = ("tuple", NoNum, "T")
+    elif t is w["NT"]:
+        r = ("tuplesub", NoNum, "T")
     elif t is list:
         r = ("list", NoNum, "L")
     elif t is w["IntSub"]:
@@ -342,7 +347,7 @@ def outcome(fn, loose, strlen=False):
         return {"tag": "reject", "w": {"ty": "none", "num": NoNum, "s": ""}, "e": "", "members": []}, str(e)
     except Exception as e:
         return {"tag": "prop", "w": {"ty": "none", "num": NoNum, "s": ""}, "e": type(e).__name__, "members": []}, ""
-    members = [proj(m, loose) for m in v] if type(v) is tuple else []
+    members = [proj(m, loose) for m in v] if isinstance(v, tuple) else []
     return {"tag": "store", "w": proj(v, loose, strlen), "e": "", "members": members}, ""
 
 
@@ -580,7 +585,7 @@ def involves(cfg, tok, pred):
         v = w["toks"][tok]
         if isinstance(v, (tuple, list)) and len(v) == len(cfg["ms"]):
             inv = {id(o): t for t, o in w["toks"].items()}
-            rev = {"t_selfa": ["oSelf", "s_a"], "t_1a": ["i1", "s_a"], "t_2h5": ["f2h", "s_5"], "t_1a1": ["i1", "s_a", "i1"], "t_12": ["i1", "i2"], "t_s10s9": ["s_10", "s_9"], "t_s9s10": ["s_9", "s_10"], "l_1a": ["i1", "s_a"], "t_": []}
+            rev = {"nt_1a": ["i1", "s_a"], "nt_5a": ["s_5", "s_a"], "t_selfa": ["oSelf", "s_a"], "t_1a": ["i1", "s_a"], "t_2h5": ["f2h", "s_5"], "t_1a1": ["i1", "s_a", "i1"], "t_12": ["i1", "i2"], "t_s10s9": ["s_10", "s_9"], "t_s9s10": ["s_9", "s_10"], "l_1a": ["i1", "s_a"], "t_": []}
             its = rev.get(tok, [])
             return any(involves(m, it, pred) for m, it in zip(cfg["ms"], its))
     return False
